@@ -212,7 +212,7 @@ def main(ctx, t0):
     acc = core.run_units(units(ctx), run_unit, ctx)
     core.deterministic_ids(0)
     searches = [(k, c, "reduced") for k in spaces.KINDS for c in (("default", "limit") if ctx.thorough else ("default",))]
-    stats, a2 = e2.explore(searches, 3 if ctx.thorough else 2, ctx, chunk=16)
+    stats, a2 = e2.explore(searches, 3 if ctx.thorough else 2, ctx, chunk=16, invs=("I5", "I2", "R7"))
     restore_ops = {}
     for key in searches:
         s = e2._search(key)
@@ -234,3 +234,13 @@ def main(ctx, t0):
              "e2": {"/".join(k): v for k, v in stats.items()},
              "restore_or_copy_transitions": sum((s["transitions"] // s["ops"]) * 3 for s in stats.values())}
     return core.finish(PID, ctx, LEVEL, acc, RULE, extra, ASSUMPTIONS, t0)
+
+
+def replay_unit(unit, ctx):
+    if unit and isinstance(unit[0], (list, tuple)):  # an E2 expansion unit
+        core.deterministic_ids(0)
+        acc = e2._expand(unit, ctx)
+        for v in acc.violations:
+            v["key"] = "E2:" + v["key"]
+        return acc
+    return run_unit(unit, ctx)
